@@ -48,6 +48,11 @@ func (fr *Frame) baseEnv() map[string]Val {
 	for _, fv := range fr.fn.FreeVars {
 		if v, ok := fr.vals[fv]; ok {
 			env["&"+fv.Name()] = v
+			// captured variables are cells: the name denotes the value held on entry (closures under contract do not reassign them)
+			if pt, ok := fv.Type().Underlying().(*types.Pointer); ok && fr.u.entry != nil {
+				a := fr.addrOfRef(v.T, pt.Elem())
+				env[fv.Name()] = fr.load(fr.u.entry, a)
+			}
 		}
 	}
 	return env
@@ -490,6 +495,14 @@ func splitSortArgs(s string) []string {
 }
 
 func (u *Unit) specCall(e *SExpr, ctx *specCtx) (Val, error) {
+	// spec functions live in one namespace; a package qualifier (sugardb.standalone) is accepted and ignored
+	if i := strings.LastIndex(e.Name, "."); i >= 0 {
+		if _, ok := u.eng.contracts.Specs[e.Name[i+1:]]; ok {
+			e2 := *e
+			e2.Name = e.Name[i+1:]
+			e = &e2
+		}
+	}
 	arg := func(i int) (Val, error) {
 		if i >= len(e.Args) {
 			return Val{}, fmt.Errorf("%s: missing argument %d", e.Name, i)
@@ -582,7 +595,11 @@ func (u *Unit) specCall(e *SExpr, ctx *specCtx) (Val, error) {
 		if err != nil {
 			return Val{}, err
 		}
-		l := sel(u.hget(ctx.cur, "$lock", lockSort), x)
+		kind := 0
+		if v, err := u.specVal(e.Args[0], ctx); err == nil && v.Ty != nil && strings.Contains(types.TypeString(v.Ty, nil), "sync.RWMutex") {
+			kind = 1
+		}
+		l := sel(u.hget(ctx.cur, "$lock", lockSort), lockKey(x, kind))
 		switch e.Name {
 		case "holds":
 			return Val{T: eq(l, "(- 1)"), Ty: tBoolT}, nil
@@ -590,6 +607,21 @@ func (u *Unit) specCall(e *SExpr, ctx *specCtx) (Val, error) {
 			return Val{T: sx(">", l, "0"), Ty: tBoolT}, nil
 		}
 		return Val{T: eq(l, "0"), Ty: tBoolT}, nil
+	case "onlyheld":
+		// exactly the listed mutexes are write-held by this goroutine, every other mutex is free
+		t := "((as const (Array Int Int)) 0)"
+		for _, a := range e.Args {
+			x, err := u.specAddr(a, ctx)
+			if err != nil {
+				return Val{}, err
+			}
+			kind := 0
+			if v, err := u.specVal(a, ctx); err == nil && v.Ty != nil && strings.Contains(types.TypeString(v.Ty, nil), "sync.RWMutex") {
+				kind = 1
+			}
+			t = store(t, lockKey(x, kind), "(- 1)")
+		}
+		return Val{T: eq(u.hget(ctx.cur, "$lock", lockSort), t), Ty: tBoolT}, nil
 	case "nolocks":
 		return Val{T: eq(u.hget(ctx.cur, "$lock", lockSort), "((as const (Array Int Int)) 0)"), Ty: tBoolT}, nil
 	case "sameLocks":
@@ -709,6 +741,69 @@ func (u *Unit) specCall(e *SExpr, ctx *specCtx) (Val, error) {
 		}
 		u.reg.declFun("str_contains", "Str Str", sBool)
 		return Val{T: sx("str_contains", a.T, b.T), Ty: tBoolT}, nil
+	case "sumover":
+		// sumover(k T, SET, TERM): the finite sum of TERM(k) over the keys in SET, where SET is seenset() (keys visited by the
+		// enclosing range-over-map loop) or dom(m) (the key set of map m). TERM may use only k, parameters and old(...) state,
+		// so that it denotes one fixed function of k. Defined by the finite-sum axioms (empty set: 0; adding a new key k
+		// adds TERM(k)) - lemma L2 of DESIGN.md, an assumption about mathematics, not about the code.
+		if len(e.Args) != 3 || e.Args[0].Op != "ident" {
+			return Val{}, fmt.Errorf("sumover(k, SET, TERM) with SET = seenset() | dom(m)")
+		}
+		kname := e.Args[0].Name
+		ksort := sStr
+		var kty types.Type = tStrT
+		var set string
+		switch {
+		case e.Args[1].Op == "call" && e.Args[1].Name == "seenset":
+			if ctx.iter == nil || ctx.iter.isStr {
+				return Val{}, fmt.Errorf("seenset() outside a range-over-map loop invariant")
+			}
+			sn, ok := ctx.cur.heap[ctx.iter.seen]
+			if !ok {
+				sn = u.hget(ctx.cur, ctx.iter.seen, u.heapSort[ctx.iter.seen])
+			}
+			set, ksort = sn, ctx.iter.kSort
+			kty = ctx.iter.m.Ty.Underlying().(*types.Map).Key()
+		case e.Args[1].Op == "call" && e.Args[1].Name == "dom":
+			m, err := u.specVal(e.Args[1].Args[0], ctx)
+			if err != nil {
+				return Val{}, err
+			}
+			mt, ok := m.Ty.Underlying().(*types.Map)
+			if !ok {
+				return Val{}, fmt.Errorf("dom(m): not a map")
+			}
+			dn, ds, _, _, _ := u.mapHeaps(mt)
+			u.mapHeapsDeclared(ctx.cur, mt)
+			set, ksort, kty = sel(u.hget(ctx.cur, dn, ds), m.T), u.sortOf(mt.Key()), mt.Key()
+		default:
+			return Val{}, fmt.Errorf("sumover: SET must be seenset() or dom(m)")
+		}
+		id := hash8(e.Args[2].String() + "|" + ksort)
+		sumf, termf := "sum_"+id, "term_"+id
+		if !u.sumDone[id] {
+			u.sumDone[id] = true
+			env := map[string]Val{}
+			for k2, v2 := range ctx.env {
+				env[k2] = v2
+			}
+			env[kname] = Val{T: "q_k", Ty: kty}
+			nc := *ctx
+			nc.env = env
+			nc.cur = ctx.old // TERM is evaluated in the entry state: one fixed function of k
+			tv, err := u.specVal(e.Args[2], &nc)
+			if err != nil {
+				return Val{}, err
+			}
+			asort := fmt.Sprintf("(Array %s Bool)", ksort)
+			u.reg.declFun(sumf, asort, sInt)
+			u.reg.declFun(termf, ksort, sInt)
+			u.assumeGlobal(fmt.Sprintf("(forall ((q_k %s)) (! (= (%s q_k) %s) :pattern ((%s q_k))))", ksort, termf, tv.T, termf))
+			u.assumeGlobal(fmt.Sprintf("(= (%s ((as const %s) false)) 0)", sumf, asort))
+			u.assumeGlobal(fmt.Sprintf("(forall ((s %s) (k %s)) (! (=> (not (select s k)) (= (%s (store s k true)) (+ (%s s) (%s k)))) :pattern ((%s (store s k true)))))", asort, ksort, sumf, sumf, termf, sumf))
+			u.note("finite-sum axioms (lemma L2) for sumover(" + e.Args[2].String() + ")")
+		}
+		return Val{T: sx(sumf, set), Ty: types.Typ[types.Int64]}, nil
 	case "seen", "domain0":
 		if ctx.iter == nil || ctx.iter.isStr {
 			return Val{}, fmt.Errorf("%s() is only available in the invariant of a range-over-map loop", e.Name)
